@@ -84,4 +84,4 @@ import PyYetiVerif.Props.C01CplxUnc
 #print axioms PyYetiVerif.C01.complex_unc_rb_exact_partial
 #print axioms PyYetiVerif.C01.complex_unc_damped_rb_counterexample
 #print axioms PyYetiVerif.C01.complex_recovery_real_part
-#print axioms PyYetiVerif.C01.complex_recovery_spurious_imag_counterexample
+#print axioms PyYetiVerif.C01.complex_dtype_real_system_response_is_real
